@@ -230,6 +230,47 @@ std::vector<Val> randomTable(Rng& r, const Dom& D, const Kind& k, unsigned densi
     return t;
 }
 
+std::vector<Val> structuredTable(Rng& r, const Dom& D, const Kind& k, unsigned density) {
+    unsigned K = D.K();
+    // roles: 0 general, 1 free, 2 fixed, 3 identity (relations), 4 fixed unprimed / free primed (relations)
+    std::vector<int> role(K + 1, 0), cu(K + 1, 0), cp(K + 1, 0);
+    for (unsigned x = 1; x <= K; x++) {
+        unsigned q = r.below(100);
+        if (k.rel) role[x] = q < 30 ? 0 : q < 45 ? 1 : q < 60 ? 2 : q < 90 ? 3 : 4;
+        else role[x] = q < 40 ? 0 : q < 75 ? 1 : 2;
+        cu[x] = r.range(0, D.sizes[x - 1] - 1);
+        cp[x] = r.range(0, D.sizes[x - 1] - 1);
+    }
+    // base function over the general variables only
+    size_t bsize = 1;
+    for (unsigned x = 1; x <= K; x++) if (role[x] == 0) { size_t sz = size_t(D.sizes[x - 1]); bsize *= k.rel ? sz * sz : sz; }
+    std::vector<Val> base(bsize, k.zero());
+    bool any = false;
+    for (auto& v : base) if (r.below(100) < density) { v = randomValue(r, k, false); any = true; }
+    if (!any) base[r.below(unsigned(bsize))] = randomValue(r, k, false);
+    size_t n = D.card(k.rel);
+    std::vector<Val> t(n, k.zero());
+    for (size_t idx = 0; idx < n; idx++) {
+        size_t rest = idx, stride = 1, red = 0;
+        bool in = true;
+        for (unsigned x = 1; x <= K && in; x++) {
+            size_t sz = size_t(D.sizes[x - 1]);
+            size_t pr = 0, un;
+            if (k.rel) { pr = rest % sz; rest /= sz; }
+            un = rest % sz; rest /= sz;
+            switch (role[x]) {
+                case 0: red += (k.rel ? pr + un * sz : un) * stride; stride *= k.rel ? sz * sz : sz; break;
+                case 1: break;
+                case 2: if (int(un) != cu[x] || (k.rel && int(pr) != cp[x])) in = false; break;
+                case 3: if (pr != un) in = false; break;
+                default: if (int(un) != cu[x]) in = false; break;
+            }
+        }
+        if (in) t[idx] = base[red];
+    }
+    return t;
+}
+
 void buildFromTable(const Dom& D, forest* F, const Kind& k, const std::vector<Val>& t, dd_edge& out) {
     size_t n = t.size();
     Val z = k.zero();
